@@ -324,6 +324,18 @@ fn odd_names(w: &mut Worker) {
             names.push(n);
         }
     }
+    // what other languages write inside a reference (defaults, alternatives, pattern removal, slices,
+    // indirection, case change) is just a name here
+    for op in [":-", ":=", ":+", ":?", "-", "=", "+", "?", "#", "##", "%", "%%", "/", "//", ":", ":1", ":1:2", "[0]", "[@]", "[*]", "^", "^^", ",", ",,", "@Q", ".", "..", "|", "||", "&&", " "] {
+        if op == " " || op.contains('=') {
+            continue; // blanks and = are not part of names
+        }
+        for n in [format!("a{}b", op), format!("a{}", op), format!("{}a", op), format!("x{}F", op)] {
+            names.push(n);
+        }
+    }
+    names.push("!a".into());
+    names.push("#a".into());
     names.sort();
     names.dedup();
     names.retain(|n| !["a", "b", "x", "f", "d", "d/"].contains(&n.as_str()));
@@ -341,6 +353,28 @@ fn odd_names(w: &mut Worker) {
             (vec![format!("${{x}}{}", r), "z".to_string()], vec!["Xvalue of the odd name w1 w2".to_string(), "z".to_string()]),
             (vec!["y".to_string(), format!("%{{{}}}", n), "z".to_string()], vec!["y", "value", "of", "the", "odd", "name", "w1", "w2", "z"].into_iter().map(String::from).collect()),
         ];
+        // and the same name when it is NOT defined (its parts may be names of defined variables): nothing
+        let mut env_without = env.clone();
+        env_without.remove(n);
+        let undefined_cases: Vec<(Vec<String>, Vec<String>)> = vec![
+            (vec![r.clone()], vec![String::new()]),
+            (vec![format!("p{}q", r)], vec!["pq".to_string()]),
+            (vec!["y".to_string(), format!("%{{{}}}", n), "z".to_string()], vec!["y".to_string(), "z".to_string()]),
+        ];
+        for (args, exp) in undefined_cases {
+            if !w.take() {
+                continue;
+            }
+            let cj = json!({"written": args, "odd_name": n, "defined": false, "via": "run_instruction"});
+            w.begin(|| cj.clone());
+            let got = rig.bind(&args, &env_without);
+            w.add_transitions(1);
+            match got {
+                Err(e) => w.fail(if e.starts_with("panic") { "panic" } else { "odd-name:bind-error" }, &format!("{:?}: {}", args, e), cj),
+                Ok(g) if g == exp => w.pass(true, hash64(&("odd-name-undefined", g.len()))),
+                Ok(g) => w.fail("odd-name:undefined-differs", &format!("written {:?} with no variable {:?} (a, b, x, f, d defined): received {:?}, expected {:?}", args, n, g, exp), cj),
+            }
+        }
         for (args, exp) in cases {
             if !w.take() {
                 continue;
@@ -580,7 +614,7 @@ pub fn crash_sig(_case: &Value, kind: &str) -> String {
     kind.to_string()
 }
 
-pub const RULE: &str = "every template of 1..3 pieces from {a, 'b c', e-acute, ${v}, ${w}, ${u} (undefined), ${a.b}, ${s::e1} (name with '::', a digit and a non-ASCII letter), \\${v}} and the whole-argument forms %{v} %{w} %{u}, in three argument positions (alone, first of two, last of three after a spread), x every value of v (undefined, every string up to the length bound over {a SP \" \\ # $ { } % LF = e-acute TAB CR NBSP}, 9 special values such as '${w}' and '  ') x 8 values of w (only where the argument list mentions them); bound by runner::run_instruction and observed by a capture command; every template also under the empty environment (no variable defined at all); a second family writes the same templates as script text (plain and quoted) and runs them through run_script. Oracle: one-pass reference substitution; spread = space-separated non-empty words. Non-trivial: the argument list mentions v or w. states = distinct (received count, position, kind) classes; transitions = real bindings. Scale cases: a value of 300/70000 (thorough 1000003) characters made of ${v}, %{w}, backslash, '#' and quote text bound alone, embedded and as an array item (must arrive whole and uninterpreted); 300/3000 (thorough 30000) words spread by %{..} and as many arguments written out on one line. Re-binding family: the templates %{w} ${w} bound twice in one run with the variable changed in between by a command writing the variable table directly, by an assignment, by set_by_name, as a for/in loop variable, as a function argument, or removed (6 x 6 values): each binding shows the value of its moment Punctuation values: every ASCII punctuation character and the low-byte look-alikes of blank, quote, #, backslash, $, %, braces and apostrophe, leading / trailing / wrapping the words of the value (6 shapes each) through every template: a value is data, a spread splits it at blanks only Odd names: every character of the wide alphabet that a name may hold (all but white space, = and }) inside, in front of and behind a name, and the two-character sequences ${ %{ $$ {{ \\$ \\% inside names, through five templates (alone, embedded, next to another reference on either side, as a spread): the name runs to the first } and is looked up as it stands";
+pub const RULE: &str = "every template of 1..3 pieces from {a, 'b c', e-acute, ${v}, ${w}, ${u} (undefined), ${a.b}, ${s::e1} (name with '::', a digit and a non-ASCII letter), \\${v}} and the whole-argument forms %{v} %{w} %{u}, in three argument positions (alone, first of two, last of three after a spread), x every value of v (undefined, every string up to the length bound over {a SP \" \\ # $ { } % LF = e-acute TAB CR NBSP}, 9 special values such as '${w}' and '  ') x 8 values of w (only where the argument list mentions them); bound by runner::run_instruction and observed by a capture command; every template also under the empty environment (no variable defined at all); a second family writes the same templates as script text (plain and quoted) and runs them through run_script. Oracle: one-pass reference substitution; spread = space-separated non-empty words. Non-trivial: the argument list mentions v or w. states = distinct (received count, position, kind) classes; transitions = real bindings. Scale cases: a value of 300/70000 (thorough 1000003) characters made of ${v}, %{w}, backslash, '#' and quote text bound alone, embedded and as an array item (must arrive whole and uninterpreted); 300/3000 (thorough 30000) words spread by %{..} and as many arguments written out on one line. Re-binding family: the templates %{w} ${w} bound twice in one run with the variable changed in between by a command writing the variable table directly, by an assignment, by set_by_name, as a for/in loop variable, as a function argument, or removed (6 x 6 values): each binding shows the value of its moment Punctuation values: every ASCII punctuation character and the low-byte look-alikes of blank, quote, #, backslash, $, %, braces and apostrophe, leading / trailing / wrapping the words of the value (6 shapes each) through every template: a value is data, a spread splits it at blanks only Odd names: every character of the wide alphabet that a name may hold (all but white space, = and }) inside, in front of and behind a name, and the two-character sequences ${ %{ $$ {{ \\$ \\% inside names, through five templates (alone, embedded, next to another reference on either side, as a spread): the name runs to the first } and is looked up as it stands. Every odd name is also bound while it is NOT defined (its parts being names of defined variables): nothing; the names include 30 operators other languages allow inside a reference (:- := :+ # ## % %% / // :1 [0] [@] ^ ^^ , ,, @Q ...)";
 pub const ASSUMPTIONS: &[&str] = &["spread values containing a double quote or '#' are only checked for 'no panic' (their grouping is pinned by the repository's own tests, not by the statement)", "arguments that mix text with %{..} are outside the property's template domain"];
 pub const EXHAUSTIVE: bool = true;
 pub const WALL_CAP_S: (u64, u64) = (50, 1500);
